@@ -265,6 +265,55 @@ class ModuleFrames(object):
                     self.add(cname, v.lineno, 'template', name, 'shared',
                              'class-level container holding a nested mutable object')
 
+        # class-level mutable defaults: a class attribute bound to a mutable display is ONE object for every instance that does not
+        # rebind it in a constructor that actually runs; if it is mutated through self anywhere, instances share state
+        MUT = ('append', 'extend', 'insert', 'pop', 'remove', 'clear', 'update', 'setdefault', 'add', 'discard', 'popitem', 'sort', 'reverse')
+
+        def rebinds(cnode, attr):
+            for b in cnode.body:
+                if isinstance(b, ast.FunctionDef) and b.name == '__init__':
+                    for n in ast.walk(b):
+                        if isinstance(n, ast.Attribute) and isinstance(n.ctx, ast.Store) and isinstance(n.value, ast.Name) and n.value.id == 'self' and n.attr == attr:
+                            return True
+                    return False
+            return None          # no constructor of its own
+
+        def chains_up(cnode):
+            for b in cnode.body:
+                if isinstance(b, ast.FunctionDef) and b.name == '__init__':
+                    return any(isinstance(n, ast.Call) and isinstance(n.func, ast.Attribute) and n.func.attr == '__init__' for n in ast.walk(b))
+            return True
+        for cname, attrs in self.class_attrs.items():
+            for name, v in attrs.items():
+                if not (isinstance(v, (ast.List, ast.Dict, ast.Set)) or (isinstance(v, ast.Call) and isinstance(v.func, ast.Name) and v.func.id in ('dict', 'list', 'set', 'defaultdict', 'OrderedDict'))):
+                    continue
+                # mutated in place through self.<name> somewhere in the module?
+                mutated = None
+                for n in ast.walk(self.tree):
+                    tgt = None
+                    if isinstance(n, ast.Subscript) and isinstance(n.ctx, (ast.Store, ast.Del)):
+                        tgt = n.value
+                    elif isinstance(n, ast.Call) and isinstance(n.func, ast.Attribute) and n.func.attr in MUT:
+                        tgt = n.func.value
+                    if isinstance(tgt, ast.Attribute) and tgt.attr == name and isinstance(tgt.value, ast.Name) and tgt.value.id == 'self':
+                        mutated = n.lineno
+                        break
+                if mutated is None:
+                    continue
+                users = [c for c in self.classes.values() if c.name == cname or any(isinstance(b, ast.Name) and b.id == cname for b in c.bases)]
+                for c in users:
+                    r = rebinds(c, name)
+                    if r is True:
+                        continue
+                    if r is None or chains_up(c):
+                        # falls back on a parent constructor: fine if the defining class rebinds it there
+                        if c.name != cname and rebinds(self.classes[cname], name) is True and chains_up(c):
+                            continue
+                        if c.name == cname and r is None:
+                            pass
+                    self.add(c.name, v.lineno, 'class-default', name, 'shared',
+                             'class-level mutable default %s.%s is mutated through self (line %d) and instances of %s do not rebind it in a constructor that runs' % (
+                                 cname, name, mutated, c.name))
     # ---- other obligations ----------------------------------------------
     def instantiations(self, classnames):
         """[(class, enclosing function path tuple, lineno)] for every call ClassName(...)"""
